@@ -473,6 +473,10 @@ func (p *parser) resetInsertionMode() {
 		case a.Template:
 			// TODO: remove this divergence from the HTML5 spec.
 			if n.Namespace != "" {
+				if last {
+					p.im = inBodyIM
+					return
+				}
 				continue
 			}
 			p.im = p.templateStack.top()
